@@ -14,9 +14,9 @@
 EXTENDS Lattice, Chars
 
 cSP == 32  cDASH == 45  cTILDE == 126  cBAR == 124  cCOLON == 58  cBANG == 33
-cPLUS == 43  cDOT == 46  cAPOS == 39
+cPLUS == 43  cDOT == 46  cAPOS == 39  cCOMMA == 44  cBQUOTE == 96  cUNDER == 95  cEQ == 61
 
-Modelled == {cSP, cDASH, cTILDE, cBAR, cCOLON, cBANG, cPLUS, cDOT, cAPOS}
+Modelled == {cSP, cDASH, cTILDE, cBAR, cCOLON, cBANG, cPLUS, cDOT, cAPOS, cCOMMA, cBQUOTE, cUNDER, cEQ}
 
 G(gx, gy) == <<gx * 2, gy * 4>>
 pa == G(0,0) pb == G(1,0) pc == G(2,0) pd == G(3,0) pe == G(4,0)
@@ -50,6 +50,12 @@ Sig(ch) ==
                          <<WEAK, <<Line(pm, po)>> >> >>
     [] ch = cAPOS  -> << <<MEDIUM, <<Line(pc, ph)>> >>, <<WEAK, <<Line(pm, pk)>> >>,
                          <<WEAK, <<Line(pm, po)>> >> >>
+    [] ch = cCOMMA -> << <<MEDIUM, <<Line(pm, pr)>> >>, <<WEAK, <<Line(pm, pk)>> >>,
+                         <<WEAK, <<Line(pm, po)>> >> >>
+    [] ch = cBQUOTE -> << <<MEDIUM, <<Line(pc, pm)>> >>, <<WEAK, <<Line(pm, pk)>> >>,
+                         <<WEAK, <<Line(pm, po)>> >> >>
+    [] ch = cUNDER -> << <<STRONG, <<Line(pu, py)>> >> >>
+    [] ch = cEQ    -> << <<MEDIUM, <<Line(<<0, 6>>, <<8, 6>>), Line(<<0, 10>>, <<8, 10>>)>> >> >>
     [] OTHER -> <<>>
 
 \* Property::line_overlap_with_signal: some signature line of at least the required strength
@@ -67,6 +73,10 @@ Rules(ch, N) ==
   CASE ch = cDASH  -> << <<TRUE, <<Line(pk, po)>> >> >>
     [] ch = cTILDE -> << <<TRUE, <<Broken(pk, po)>> >> >>
     [] ch = cBAR   -> << <<TRUE, <<Line(pc, pw)>> >>,
+                         <<Med(N.tr, pu, pv), <<Line(pc, pe)>> >>,
+                         <<Med(N.tl, px, py), <<Line(pa, pc)>> >>,
+                         <<Med(N.r, pu, pv), <<Line(pw, py)>> >>,
+                         <<Med(N.l, px, py), <<Line(pu, pw)>> >>,
                          <<Str(N.r, pk, pl), <<Line(pm, po)>> >>,
                          <<Str(N.l, pn, po), <<Line(pk, pm)>> >> >>
     [] ch \in {cCOLON, cBANG} ->
@@ -78,15 +88,27 @@ Rules(ch, N) ==
                          <<Med(N.r, pk, pl) /\ Med(N.b, pc, ph), <<Arc(po, pr, U2), Line(pr, pw)>> >>,
                          <<Med(N.r, pk, pl) /\ Med(N.bl, pc, ph), <<Arc(pm, Off(pc, -1, 1), U4), Line(pm, po)>> >>,
                          <<Med(N.l, pn, po) /\ Med(N.b, pc, ph), <<Arc(pr, pk, U2), Line(pr, pw)>> >>,
-                         <<Med(N.l, pn, po) /\ Med(N.br, pc, ph), <<Arc(Off(pc, 1, 1), pm, U4), Line(pk, pm)>> >>,
+                         <<N.br # cBQUOTE /\ Med(N.l, pn, po) /\ Med(N.br, pc, ph), <<Arc(Off(pc, 1, 1), pm, U4), Line(pk, pm)>> >>,
+                         <<Med(N.l, pu, py) /\ Med(N.r, pk, po), <<Line(pu, po)>> >>,
+                         <<Med(N.l, pk, po) /\ Med(N.r, pu, py), <<Line(pk, py)>> >>,
+                         <<N.l = cBQUOTE /\ N.br = cBQUOTE, <<Broken(Off(pc, -1, 0), Off(pc, 1, 1))>> >>,
                          <<N.r = cAPOS /\ N.bl = cAPOS, <<Broken(Off(pc, 1, 0), Off(pc, -1, 1))>> >> >>
     [] ch = cAPOS  -> << <<Str(N.t, pm, pw), <<Line(pc, ph)>> >>,
                          <<Med(N.r, pk, pl) /\ Med(N.t, pr, pw), <<Arc(ph, po, U2), Line(pc, ph)>> >>,
                          <<Med(N.r, pk, pl) /\ Med(N.tl, pr, pw), <<Arc(Off(pw, -1, -1), pm, U4), Line(pm, po)>> >>,
                          <<Med(N.l, pn, po) /\ Med(N.t, pr, pw), <<Arc(pk, ph, U2), Line(pc, ph)>> >>,
                          <<Med(N.l, pn, po) /\ Med(N.tr, pr, pw), <<Arc(pm, Off(pw, 1, -1), U4), Line(pk, pm)>> >>,
+                         <<Med(N.l, pk, po) /\ Med(N.tr, pu, py), <<Line(pk, pe)>> >>,
+                         <<Med(N.tl, pu, py) /\ Med(N.r, pk, po), <<Line(pa, po)>> >>,
                          <<N.l = cDOT /\ N.tr = cDOT, <<Broken(Off(pm, -1, 0), Off(pm, 1, -1))>> >>,
                          <<N.r = cDOT /\ N.tl = cDOT, <<Broken(Off(pm, -1, -1), Off(pm, 1, 0))>> >> >>
+    [] ch = cCOMMA -> << <<Med(N.r, pk, pl) /\ Med(N.b, pc, ph), <<Arc(po, pr, U2), Line(pr, pw)>> >> >>
+    [] ch = cBQUOTE -> << <<Med(N.r, pk, pl) /\ Med(N.t, pr, pw), <<Arc(ph, po, U2), Line(pc, ph)>> >>,
+                          <<Med(N.tl, pu, py) /\ Med(N.r, pk, po), <<Line(pa, po)>> >>,
+                          <<N.tl = cDOT /\ N.r = cDOT, <<Broken(Off(pm, -1, -1), Off(pm, 1, 0))>> >>,
+                          <<N.t = cCOMMA /\ Med(N.r, pk, pl), <<Arc(ph, po, U2), Line(pc, ph)>> >> >>
+    [] ch = cUNDER -> << <<TRUE, <<Line(pu, py)>> >> >>
+    [] ch = cEQ    -> << <<TRUE, <<Line(<<0, 6>>, <<8, 6>>), Line(<<0, 10>>, <<8, 10>>)>> >> >>
     [] OTHER -> <<>>
 
 \* every fragment any rule of ch can draw (for C05's stroke envelope)
